@@ -86,7 +86,7 @@ class Node:
 
 WHENS = ["2024-01-02T03:04:05", "2024-01-02T03:04:05+00:00", "1999-12-31T23:59:59.123456+02:00"]
 DAYS = ["2024-02-29", "1970-01-01"]
-BLOBS = ["", "AA==", "aGVsbG8="]
+BLOBS = ["", "AA==", "aGVsbG8=", "++++/v79/A=="]  # the last one uses both characters that differ between the base64 alphabets
 
 _WARM = [
     (Plain, {"a": "x", "b": 1}),
@@ -201,7 +201,7 @@ def tw_casekeys_decode_encode(n: str, u: str) -> bool:
 
 def ob_leafy_decode_encode(w: int, has_day: bool, d: int, has_blob: bool, b: int, flag: bool) -> bool:
     """
-    pre: 0 <= w < 3 and 0 <= d < 2 and 0 <= b < 3
+    pre: 0 <= w < 3 and 0 <= d < 2 and 0 <= b < 4
     post: _
     """
     doc = {"when": WHENS[w], "flag": flag}
@@ -228,7 +228,7 @@ def ob_leafy_decode_encode(w: int, has_day: bool, d: int, has_blob: bool, b: int
 
 def tw_leafy_decode_encode(w: int, has_day: bool, d: int, has_blob: bool, b: int, flag: bool) -> bool:
     """
-    pre: 0 <= w < 3 and 0 <= d < 2 and 0 <= b < 3
+    pre: 0 <= w < 3 and 0 <= d < 2 and 0 <= b < 4
     post: _
     """
     unstructure_to_dict(structure_from_dict({"when": WHENS[w], "flag": flag}, Leafy))
